@@ -98,6 +98,8 @@ func (c *Client) sendKeepAlive() {
 	msg := NewMsgKeepAlive(c.config.Cookie)
 	if err := c.SendMessage(msg); err != nil {
 		c.SendError(err)
+		// The protocol is shutting down; don't schedule another keep-alive
+		return
 	}
 	// Schedule timer
 	c.startTimer()
@@ -110,6 +112,13 @@ func (c *Client) startTimer() {
 	// Stop any existing timer
 	if c.timer != nil {
 		c.timer.Stop()
+	}
+	// Don't re-arm the timer once the protocol has shut down: the cleanup
+	// goroutine only stops the timer that exists when DoneChan closes
+	select {
+	case <-c.DoneChan():
+		return
+	default:
 	}
 	// Create new timer
 	c.timer = time.AfterFunc(c.config.Period, c.sendKeepAlive)
